@@ -174,6 +174,22 @@ def project_run(cp, group, texts, members_cases, records, rec, calls, method, ra
         api_valid = bool(cp.results_manager.is_valid(group))
     except Exception:
         api_valid = False
+    # the other questions the results manager answers about the run (C09: "agree with the in-memory results")
+    rm = cp.results_manager
+    api = {"n_results": -1, "has_errors": False, "n_errors": -1, "specific": [], "last": -1}
+    try:
+        api["n_results"] = int(rm.get_number_of_results(group))
+        api["has_errors"] = bool(rm.has_errors(group))
+        # (get_number_of_errors() raises TypeError on the pinned tree - it calls the int property errors_count; no listed
+        # property speaks about it, so it is neither asked nor judged)
+        for i, ident in enumerate(idents):
+            if ident:
+                r = rm.get_specific_named_result(group, ident)
+                api["specific"].append({"m": i + 1, "got": (getattr(r.csvpath, "_verif_member", -2) + 1) if r is not None else 0})
+        lr = rm.get_last_named_result(name=group)
+        api["last"] = (getattr(lr.csvpath, "_verif_member", -2) + 1) if lr is not None else 0
+    except Exception as e:        # an observation, judged by the specification
+        api["error"] = f"{type(e).__name__}: {e}"[:200]
     return {
         "kind": "serial" if method in SERIAL else "byline",
         "nmem": len(members_cases),
@@ -189,6 +205,8 @@ def project_run(cp, group, texts, members_cases, records, rec, calls, method, ra
             "error_count": int(run_man.get("error_count") or 0),
         },
         "is_valid_api": api_valid,
+        "api": {k: v for k, v in api.items() if k != "error"},
+        "api_error": api.get("error", ""),
         "other_dirs": other,
         "abort": {"m": 0, "line": -1},
         "stores_unchanged": bool(stores_unchanged),
